@@ -21,7 +21,8 @@ impl From<f64> for Number {
     fn from(value: f64) -> Self {
         let floored_value = value.floor();
         if (value - floored_value) == 0.0 {
-            if floored_value >= (i64::MIN as f64) && floored_value <= (i64::MAX as f64) {
+            // i64::MAX as f64 rounds up to 2^63, which is not an i64: the bound is exclusive
+            if floored_value >= (i64::MIN as f64) && floored_value < (i64::MAX as f64) {
                 Number::Integer(floored_value as i64)
             } else {
                 Number::Float(value)
